@@ -2,6 +2,8 @@ import Driver.Util
 import DiskfsModel.Core.Crc
 import DiskfsModel.Model.Gpt
 import DiskfsModel.Model.Mbr
+import DiskfsModel.Spec.GptValid
+import DiskfsModel.Proofs.GptCrashFlat
 /-!
   Model driver for the engines gpt (C02), gptcrash (C09) and tblrobust (C15).
   Devices are sparse lists of extents (later extents win) or, for the crash
@@ -173,6 +175,45 @@ def opEntry (args : List String) : String :=
     | .panic _ => "res=panic"
   | _ => "res=bad"
 
+/-! ### gpt.valid: the Lean validity specification (Spec/GptValid.lean, written from the UEFI rules)
+    evaluated with the executable CRC32 on the bytes the real Table.Write left on the device -/
+
+def opValid (args : List String) : String :=
+  let d := extsDev (parseExts ((arg args "dev").getD "-"))
+  let size := argNatD args "size"
+  let lss := argNatD args "lss" 512
+  let g := GptSpec.gptValidB crc32 d size lss
+  let p := if (arg args "pmbr").getD "1" == "1" then (if GptSpec.pmbrValidB d size lss then "1" else "0") else "-"
+  let used := if g then toString (GptSpec.usedEntries d lss).length else "-"
+  s!"gpt={if g then 1 else 0}\tpmbr={p}\tused={used}"
+
+/-! ### gpt.rewrite / mbr.rewrite: read the table from the device bytes, write it back (C14: rewriting a
+    table that was read from disk changes nothing; theorems gpt_write_idempotent / mbr_write_idempotent) -/
+
+def unchangedBy (d : Dev) (ws : List Wr) : Bool :=
+  ws.all fun w => readAt d w.off w.data.length == w.data
+
+def opRewrite (args : List String) : String :=
+  let c := parseCfg args
+  let d := extsDev (parseExts ((arg args "dev").getD "-"))
+  let size := argNatD args "size"
+  let lss := argNatD args "lss" 512
+  match Gpt.read c crc32 d size lss with
+  | (.ok t1, _) =>
+    match Gpt.write c crc32 t1 size with
+    | .ok (ws, _) => s!"res=ok\tws={wrsFinger ws}\tsame={if unchangedBy d ws then 1 else 0}"
+    | .err _ => "res=err"
+    | .panic _ => "res=panic"
+  | _ => "res=noread"
+
+def opMbrRewrite (args : List String) : String :=
+  let d := extsDev (parseExts ((arg args "dev").getD "-"))
+  match Mbr.read d (argNatD args "size") with
+  | (some ps, _) =>
+    let ws := Mbr.write ps
+    s!"res=ok\tws={wrsStr ws}\tsame={if unchangedBy d ws then 1 else 0}"
+  | (none, _) => "res=noread"
+
 /-! ### gptcrash.pair -/
 
 /-- subsets of `n` sectors to tear a write at: all 2^n when n ≤ 12, otherwise
@@ -193,6 +234,23 @@ def classify (oldParts newParts : Option (List Part)) (r : Res Table) : Char :=
     if t.backup then c.toLower else c
   | .err _ => 'E'
   | .panic _ => 'P'
+
+/-- the same classification through the RECORD-level reader of the C09 theorems: the device is viewed as
+    the five regions (`toDisk`) and read by `GptCrash.read` instantiated with the real decoders (`flatReader`) -/
+def classifyRec (oldParts newParts : Option (List Part)) (d : Dev) (size lss : Nat) : Char :=
+  match GptCrash.read (GptCrash.flatReader crc32 size lss) (GptCrash.toDisk d size lss) with
+  | .ok ps fromBackup =>
+    let c := if some ps == newParts then 'N' else if some ps == oldParts then 'O' else 'X'
+    if fromBackup then c.toLower else c
+  | .err => 'E'
+
+/-- partition.Read through the RECORD-level `partRead` (flatReader + mbrViewFlat on toDisk); the record
+    level does not carry the from-backup flag, so classes are upper case -/
+def classifyRecPT (oldParts newParts : Option (List Part)) (oldMbr : Option (List Mbr.Part)) (d : Dev) (size lss : Nat) : Char :=
+  match GptCrash.partRead (GptCrash.flatReader crc32 size lss) GptCrash.mbrViewFlat (GptCrash.toDisk d size lss) with
+  | .gpt ps => if some ps == newParts then 'N' else if some ps == oldParts then 'O' else 'X'
+  | .mbr ps => if some ps == oldMbr then 'M' else 'Y'
+  | .err => 'E'
 
 def classifyPT (oldParts newParts : Option (List Part)) (oldMbr : Option (List Mbr.Part)) (r : Res PartTable.Tbl) : Char :=
   match r with
@@ -230,23 +288,27 @@ def opCrash (args : List String) : String :=
   match Gpt.write c crc32 (tableOfArgs args "n") size with
   | .ok (ws, _) =>
     let newParts := partsOf (ws.foldl imgApply img1)
-    let both (d : Dev) : Char × Char :=
+    let both (d : Dev) : Char × Char × Char × Char :=
       let g := Gpt.read c crc32 d size lss
-      (classify oldParts newParts g.1, classifyPT oldParts newParts oldMbr (PartTable.readWith g d size).1)
-    let stage (k : Nat) : String × String :=
+      (classify oldParts newParts g.1, classifyPT oldParts newParts oldMbr (PartTable.readWith g d size).1,
+       classifyRec oldParts newParts d size lss, classifyRecPT oldParts newParts oldMbr d size lss)
+    let stage (k : Nat) : String × String × String × String :=
       let imgk := (ws.take k).foldl imgApply img1
       match ws[k]? with
       | none =>
         let r := both (imgDev imgk)
-        (String.singleton r.1, String.singleton r.2)
+        (String.singleton r.1, String.singleton r.2.1, String.singleton r.2.2.1, String.singleton r.2.2.2)
       | some w =>
         let n := (w.data.length + lss - 1) / lss
         let rs := (family n).map fun keep => both (imgDev ((tornPieces lss w keep).foldl imgApply imgk))
-        (String.ofList (rs.map (·.1)), String.ofList (rs.map (·.2)))
+        (String.ofList (rs.map (·.1)), String.ofList (rs.map (·.2.1)), String.ofList (rs.map (·.2.2.1)),
+         String.ofList (rs.map (·.2.2.2)))
     let all := (List.range (ws.length + 1)).map stage
     let g := ",".intercalate (all.map (·.1))
-    let p := ",".intercalate (all.map (·.2))
-    s!"res=ok\tn={ws.length}\tg={g}\tp={p}"
+    let p := ",".intercalate (all.map (·.2.1))
+    let r := ",".intercalate (all.map (·.2.2.1))
+    let q := ",".intercalate (all.map (·.2.2.2))
+    s!"res=ok\tn={ws.length}\tg={g}\tp={p}\tr={r}\tq={q}"
   | _ => "res=err"
 
 end Driver.Gpt
@@ -260,5 +322,8 @@ def main : IO Unit := Driver.runLoop fun op args =>
   | "mbr.read" => Driver.Gpt.opMbrRead args
   | "gpt.crc" => Driver.Gpt.opCrc args
   | "gpt.entry" => Driver.Gpt.opEntry args
+  | "gpt.valid" => Driver.Gpt.opValid args
+  | "gpt.rewrite" => Driver.Gpt.opRewrite args
+  | "mbr.rewrite" => Driver.Gpt.opMbrRewrite args
   | "gptcrash.pair" => Driver.Gpt.opCrash args
   | _ => "unknown-op"
